@@ -7,7 +7,11 @@
 (* and blocks for ever at the blocking point `point` chosen by the         *)
 (* environment (no name resolution result; no READY subchannel; raw server *)
 (* with MAX_CONCURRENT_STREAMS 0; raw server granting no window; silent    *)
-(* raw server; handler of a real server waiting for its context).  An      *)
+(* raw server; raw server that stalls in the middle of a response message  *)
+(* ("recvmid": response HEADERS + 5-byte prefix + part of the payload);    *)
+(* handler of a real server waiting for its context).  kind is unary,      *)
+(* bidi streaming ("stream") or client streaming ("cstream"); tracing is   *)
+(* the configuration grpc.EnableTracing (write-quota point only).  An      *)
 (* earlier phase `delay` (picker or quota) may block until tRel.  The      *)
 (* events are a deadline dl (absolute, set when the RPC starts at 0) and / *)
 (* or a cancellation at cancelAt.  Time is in nanoseconds of virtual time  *)
@@ -29,16 +33,18 @@ CONSTANTS Mutant,
           Points, Delays, Deadlines, Cancels, TRel, End
 
 VARIABLES
-  point, kind, delay, hasDl, dl, hasCancel, cancelAt,    \* scenario (chosen initially)
+  point, kind, delay, hasDl, dl, hasCancel, cancelAt, tracing,   \* scenario (chosen initially)
   now, phase, hdrAt,                                     \* Level I
   ret, retAt,                                            \* outcome on the client: code (0 = not returned), instant
   sent, sentAt, hasWire, wire,                           \* what the server saw: HEADERS at sentAt, timeout present / value
   hStarted, hDone, hDoneAt                               \* handler of the real server
 
-scen == <<point, kind, delay, hasDl, dl, hasCancel, cancelAt>>
+scen == <<point, kind, delay, hasDl, dl, hasCancel, cancelAt, tracing>>
 rvars == <<scen, now, phase, hdrAt, ret, retAt, sent, sentAt, hasWire, wire, hStarted, hDone, hDoneAt>>
 
-Order == [resolver |-> 1, picker |-> 2, quota |-> 3, write |-> 4, recv |-> 5, handler |-> 5, none |-> 0]
+Order == [resolver |-> 1, picker |-> 2, quota |-> 3, write |-> 4, recv |-> 5, recvmid |-> 5, handler |-> 5, none |-> 0]
+\* the phase in which the RPC sits at its blocking point
+PointPhase == IF point = "recvmid" THEN "recv" ELSE point
 
 \* the instant and the code of the terminating event
 DlFirst == hasDl /\ (~hasCancel \/ dl < cancelAt)
@@ -73,20 +79,22 @@ ScenOK ==
   /\ hasDl /\ hasCancel => dl # cancelAt
   /\ EvAt # TRel
   /\ point = "write" => kind = "stream"
+  /\ kind = "cstream" => point \in {"recv", "recvmid", "handler"}
+  /\ tracing => point = "write" /\ delay = "none"
   /\ delay = "pick" => Order[point] > 2
-  /\ delay = "quota" => point \in {"write", "recv"}
+  /\ delay = "quota" => point \in {"write", "recv", "recvmid"}
   /\ ~hasDl => dl = 0
   /\ ~hasCancel => cancelAt = 0
 
 RInit ==
-  /\ point \in Points /\ kind \in {"unary", "stream"} /\ delay \in Delays
+  /\ point \in Points /\ kind \in {"unary", "stream", "cstream"} /\ delay \in Delays /\ tracing \in BOOLEAN
   /\ hasDl \in BOOLEAN /\ dl \in Deadlines \cup {0} /\ hasCancel \in BOOLEAN /\ cancelAt \in Cancels \cup {0}
   /\ ScenOK
   /\ now = 0 /\ phase = "resolver" /\ hdrAt = 0 /\ ret = 0 /\ retAt = 0
   /\ sent = FALSE /\ sentAt = 0 /\ hasWire = FALSE /\ wire = 0
   /\ hStarted = FALSE /\ hDone = FALSE /\ hDoneAt = 0
 
-Blocked(ph) == ph = point \/ (delay = "pick" /\ ph = "picker" /\ now < TRel) \/ (delay = "quota" /\ ph = "quota" /\ now < TRel)
+Blocked(ph) == ph = PointPhase \/ (delay = "pick" /\ ph = "picker" /\ now < TRel) \/ (delay = "quota" /\ ph = "quota" /\ now < TRel)
 
 \* the RPC moves to the next phase as soon as it is not blocked (no time passes)
 Advance ==
@@ -95,7 +103,7 @@ Advance ==
        [] phase = "picker" -> phase' = "quota" /\ hdrAt' = now /\ UNCHANGED <<sent, sentAt, hasWire, wire, hStarted>>
        [] phase = "quota" ->
             \* HEADERS go out; the timeout in them was computed when the header fields were created (hdrAt)
-            /\ phase' = (IF kind = "stream" THEN "write" ELSE IF point = "handler" THEN "handler" ELSE "recv")
+            /\ phase' = (IF kind # "unary" THEN "write" ELSE IF point = "handler" THEN "handler" ELSE "recv")
             /\ sent' = TRUE /\ sentAt' = now /\ hasWire' = hasDl
             /\ wire' = (IF hasDl THEN (IF Mutant = 2 THEN ((dl - hdrAt) \div Unit(dl - hdrAt)) * Unit(dl - hdrAt) ELSE Ceil(dl - hdrAt)) ELSE 0)
             /\ hStarted' = (point = "handler")
